@@ -21,3 +21,18 @@ func emitRegexTreeCode(repo string) (string, error) {
 		skip:         map[string]string{"getBinds": "copies the bind list with make and copy (a defensive copy: no behaviour of its own)"},
 	})
 }
+
+func init() { emitters["HoleTreeCode"] = emitHoleTreeCode }
+
+// Gen/HoleTreeCode.lean: `placeholderTree` — match stores the whole segment under the bind, getBinds names it
+func emitHoleTreeCode(repo string) (string, error) {
+	return translateType(repo, codeCfg{
+		pkg:          "./internal/route",
+		recvType:     "placeholderTree",
+		namespace:    "Flamego.Gen.HoleTreeCode",
+		imports:      []string{"Flamego.Code.GoSem"},
+		stringBytes:  true,
+		opaqueFields: true,
+		skip:         map[string]string{},
+	})
+}
